@@ -1339,9 +1339,9 @@ Example benign_hist_satisfiable :
      Recv 3 false false (MReqRoster 1);
      Recv 3 false false (MRespTree (Some (mkTMar 2 1 [TM 1 1 []])) (Some (mkRo 1 [mkMem 1 true])))].
 Proof.
-  cbn [benign_hist benign]. repeat split; cbn; auto.
-  - right. discriminate.
-  - left. discriminate.
+  vm_compute. repeat split; auto.
+  - right. intros E. discriminate E.
+  - right. intros E. discriminate E.
 Qed.
 
 (* a tree the server has is never changed by what peers send *)
@@ -1375,7 +1375,7 @@ Theorem serves_tree_request : forall s p nf id ver t,
                else RRespTree (t_id t) (ro_id (t_roster t)) (root_node t))) (r_events r).
 Proof.
   intros s p nf id ver t I Ht Hr. pose proof I as (Hl & Hi).
-  edestruct (step_of_returns s (Recv p false nf (MReqTree id ver))) as (m' & E & Hx & Hq); [exact I| |].
+  edestruct (step_of_returns all_fixed s (Recv p false nf (MReqTree id ver))) as (m' & E & Hx & Hq); [exact I| |].
   { cbn [run_op process touches]. apply handle_request_tree_returns; [exact Hl|reflexivity]. }
   cbn zeta. rewrite E. cbn [r_out r_events]. split; [reflexivity|].
   apply In_rev_iff. apply (Hq t); assumption.
@@ -1387,8 +1387,8 @@ Theorem serves_roster_request : forall s p nf rid i t,
   r_out r = Ok /\ In (ESend p (RRoster rid)) (r_events r).
 Proof.
   intros s p nf rid i t I Hin Hro Hr. pose proof I as (Hl & Hi).
-  edestruct (step_of_returns s (Recv p false nf (MReqRoster rid))) as (m' & E & Hx & Hq); [exact I| |].
-  { cbn [run_op process touches]. apply handle_request_roster_returns; [exact Hl|reflexivity]. }
+  edestruct (step_of_returns all_fixed s (Recv p false nf (MReqRoster rid))) as (m' & E & Hx & Hq); [exact I| |].
+  { cbn [run_op process touches]. apply handle_request_roster_returns; [exact Hl|reflexivity|left; reflexivity]. }
   cbn zeta. rewrite E. cbn [r_out r_events]. split; [reflexivity|].
   apply In_rev_iff. specialize (Hq Hr). cbn [os] in Hq.
   destruct (find (has_roster rid) (store s)) as [[j e]|] eqn:Ef.
@@ -1406,8 +1406,8 @@ Theorem serves_protocol_message : forall s p nf from k t f,
   r_out r = Ok /\ In (EDeliver k (tk_node f)) (r_events r).
 Proof.
   intros s p nf from k t f I Ht W. pose proof I as (Hl & Hi).
-  edestruct (step_of_returns s (Recv p false nf (MProto from (Some k) BPing))) as (m' & E & Hx & Hq); [exact I| |].
-  { cbn [run_op process touches]. apply transmit_returns. repeat split; assumption. }
+  edestruct (step_of_returns all_fixed s (Recv p false nf (MProto from (Some k) BPing))) as (m' & E & Hx & Hq); [exact I| |].
+  { cbn [run_op process touches]. apply transmit_returns; [reflexivity|repeat split; assumption|discriminate]. }
   cbn zeta. rewrite E. cbn [r_out r_events]. split; [reflexivity|].
   apply In_rev_iff. destruct (Hq k eq_refl) as (Hd & _). apply (Hd t f); assumption.
 Qed.
@@ -1425,8 +1425,9 @@ Theorem asks_sender_for_tree : forall s p nf from k b,
   exists asked', lookup (tk_tree k) (store (r_state r)) = Some (Req asked').
 Proof.
   intros s p nf from k b I Hb Hr Hs. pose proof I as (Hl & Hi).
-  edestruct (step_of_returns s (Recv p false nf (MProto from (Some k) b))) as (m' & E & Hx & Hq); [exact I| |].
-  { cbn [run_op process touches]. destruct b; [| |contradiction]; apply transmit_returns; repeat split; assumption. }
+  edestruct (step_of_returns all_fixed s (Recv p false nf (MProto from (Some k) b))) as (m' & E & Hx & Hq); [exact I| |].
+  { cbn [run_op process touches].
+    destruct b; [| |contradiction]; (apply transmit_returns; [reflexivity|repeat split; assumption|discriminate]). }
   cbn zeta. rewrite E. cbn [r_out r_events r_state]. split; [reflexivity|].
   assert (Hq' : forall k0, Some k = Some k0 -> _) by (destruct b; [exact Hq|exact Hq|contradiction]).
   destruct (Hq' k eq_refl) as (_ & Hp).
@@ -1449,8 +1450,10 @@ Theorem serves_after_tree_arrives : forall s p nf tm ro t pm f asked,
   In (EDeliver (p_to pm) (tk_node f)) (r_events r).
 Proof.
   intros s p nf tm ro t pm f asked I Hz Hm Hreq Hf W. pose proof I as (Hl & Hi).
-  edestruct (step_of_returns s (Recv p false nf (MRespTree (Some tm) (Some ro)))) as (m' & E & Hx & Hq); [exact I| |].
-  { cbn [run_op process touches]. apply handle_send_tree_returns; [exact Hl|reflexivity|exact Hi]. }
+  edestruct (step_of_returns all_fixed s (Recv p false nf (MRespTree (Some tm) (Some ro)))) as (m' & E & Hx & Hq); [exact I| |].
+  { cbn [run_op process touches].
+    apply handle_send_tree_returns; try reflexivity; [exact Hl|exact Hi|].
+    intros tm' ro' _ _. unfold benign_mk. cbn. auto. }
   cbn zeta. rewrite E. cbn [r_out r_events r_state]. split; [reflexivity|].
   destruct (Hq tm ro t pm f eq_refl eq_refl Hz Hm (ex_intro _ asked Hreq) Hf W) as (Hs & Hd).
   split; [apply Hs; intros []|apply In_rev_iff; exact Hd].
